@@ -75,7 +75,7 @@ var props = map[string]*propCfg{
 		DesignRef:   "DESIGN.md §4 C02",
 	},
 	"C06": {
-		Rule:        "Word-level cases through the verif exports: dec.mul (balanced, 1:2, 1:10, random lengths; dirty destination buffers), dec.sqr, dec.div on operands of 1..420 words (thorough: 1 100) whose words are drawn from {0, 1, 2, 10, 10^9, 10^18, base/2-1, base/2, base/2+1, base-2, base-1, random}; divisions: constructed add-back pairs (v=[..,0,base/2], u=[..,0,0,k]: the two-word test passes and q̂ is one too large), exact u=q*v, u=q*v+(v-1), dividends whose leading words equal the divisor's (q̂=base-1 path), 1- and 2-word divisors, divisors of 100..230 words with dividends spanning several recursion blocks; plus end-to-end Mul at precision = total digits (exact product) and Quo with the exact/inexact decision judged. Half of the cases run under a random threshold assignment (Karatsuba 2..40, basicSqr in {1,2,3,5,10,20}, karatsubaSqr in {2,3,4,6,11,50,100}) and half with the scratch pool poisoned (every buffer handed out or returned is overwritten with a word >= base). Oracle: big.Int product / QuoRem of the word vectors converted by harness code; operands unchanged; every output word < base. Hook counters prove that the add-back, q̂ correction, recursive corrections and Karatsuba branches were reached. Non-trivial = multi-word operands. Added in later rounds: B/k and binary-boundary edge words, block quotients of a few low words over a divisor with an almost empty low half, a few divisors of 6211..6300 (thorough: 12419..12700) words per run.",
+		Rule:        "Word-level cases through the verif exports: dec.mul (balanced, 1:2, 1:10, random lengths; dirty destination buffers), dec.sqr, dec.div on operands of 1..420 words (thorough: 1 100) whose words are drawn from {0, 1, 2, 10, 10^9, 10^18, base/2-1, base/2, base/2+1, base-2, base-1, random}; divisions: constructed add-back pairs (v=[..,0,base/2], u=[..,0,0,k]: the two-word test passes and q̂ is one too large), exact u=q*v, u=q*v+(v-1), dividends whose leading words equal the divisor's (q̂=base-1 path), 1- and 2-word divisors, divisors of 100..230 words with dividends spanning several recursion blocks; plus end-to-end Mul at precision = total digits (exact product) and Quo with the exact/inexact decision judged. Half of the cases run under a random threshold assignment (Karatsuba 2..40, basicSqr in {1,2,3,5,10,20}, karatsubaSqr in {2,3,4,6,11,50,100}) and half with the scratch pool poisoned (every buffer handed out or returned is overwritten with a word >= base). Oracle: big.Int product / QuoRem of the word vectors converted by harness code; operands unchanged; every output word < base. Hook counters prove that the add-back, q̂ correction, recursive corrections and Karatsuba branches were reached. Non-trivial = multi-word operands. Added in later rounds: B/k and binary-boundary edge words, block quotients of a few low words over a divisor with an almost empty low half, a few divisors of 6211..6300 (thorough: 12419..12700) words per run. Round 6: divisors of all nines with quotients of all nines and a remainder next to the divisor (u = v x B^k - small): every remainder correction adds v back at the top of its range.",
 		Assumptions: []string{"thresholds and the pool callback are changed only between cases in a single-threaded worker", "the recursive-division threshold is a constant (100 words): both sides of it are exercised through the divisor length"},
 		Floors:      []floor{{"hit_div_add_back", 1000}, {"hit_div_qhat_fix", 1000}, {"hit_div_rec_fix1", 500}, {"hit_div_rec_fix2", 300}, {"hit_div_recursive", 500}, {"hit_karatsuba", 5000}, {"hit_karatsuba_negative", 1000}, {"hit_karatsuba_sqr", 1000}, {"hit_basic_sqr", 1000}, {"mul/", 5000}, {"sqr/", 3000}, {"div/", 8000}, {"Quo/e2e", 1000}, {"Mul/e2e", 1000}},
 		LevelText:   "Runtime monitoring of the multi-word routines against big.Int with adversarial word patterns, every threshold assignment family and a poisoned scratch pool; branch-hit counters from tag-guarded hooks show that the rare correction paths were actually executed.",
@@ -114,7 +114,7 @@ var props = map[string]*propCfg{
 		DesignRef:   "DESIGN.md §4 C09",
 	},
 	"C20": {
-		Rule:        "SetBitsExp(mant, exp): slices of 0..40 words (edge words, high zero words, low zero words, top word of 1..18 digits, all zero, all nines), exponents over all of int64 (both extremes, random 64-bit values, within 25 of either range end), receiver precision 1..60, smaller than the slice, or 0; six modes; receivers that held another value; oracle = +sum(m[i] B^i) x 10^(exp - 19 len) evaluated with a big.Int exponent (cannot wrap), rounded once by both models; all-zero => +0. BitsExp: values built through three routes (parser, arithmetic, raw) must be denoted exactly by the returned pair and by the independent 'p'-format read-out, with the exponent equal to the leading digit's. MantExp: exponent = leading digit's, mant in [0.1,1) with x's precision and mode, nil / fresh / same-variable out-parameter, ±0 and ±Inf special cases, x unchanged, and the documented identity SetMantExp(mant, x.MantExp(mant)) == x. SetMantExp(mant, k): exact mant x 10^k with k small, landing within 4 of either range end, anywhere in int, at the int64 extremes; ±0/±Inf exactly when the exponent leaves the range; attributes copied from mant; mant unchanged. Non-trivial = finite, non-empty inputs. Added in later rounds: the BitsExp -> edit in place -> SetBitsExp idiom, leading zero words on precision-0 receivers, MantExp's destination probed for shared storage, one slice of more than 2^32 digits and one with more than 2^31 leading zero digits per run (1.8 GB and 0.9 GB of untouched zero pages).",
+		Rule:        "SetBitsExp(mant, exp): slices of 0..40 words (edge words, high zero words, low zero words, top word of 1..18 digits, all zero, all nines), exponents over all of int64 (both extremes, random 64-bit values, within 25 of either range end), receiver precision 1..60, smaller than the slice, or 0; six modes; receivers that held another value; oracle = +sum(m[i] B^i) x 10^(exp - 19 len) evaluated with a big.Int exponent (cannot wrap), rounded once by both models; all-zero => +0. BitsExp: values built through three routes (parser, arithmetic, raw) must be denoted exactly by the returned pair and by the independent 'p'-format read-out, with the exponent equal to the leading digit's. MantExp: exponent = leading digit's, mant in [0.1,1) with x's precision and mode, nil / fresh / same-variable out-parameter, ±0 and ±Inf special cases, x unchanged, and the documented identity SetMantExp(mant, x.MantExp(mant)) == x. SetMantExp(mant, k): exact mant x 10^k with k small, landing within 4 of either range end, anywhere in int, at the int64 extremes; ±0/±Inf exactly when the exponent leaves the range; attributes copied from mant; mant unchanged. Non-trivial = finite, non-empty inputs. Added in later rounds: the BitsExp -> edit in place -> SetBitsExp idiom, leading zero words on precision-0 receivers, MantExp's destination probed for shared storage, one slice of more than 2^32 digits and one with more than 2^31 leading zero digits per run (1.8 GB and 0.9 GB of untouched zero pages). Round 6: the 2^32-digit slice is also handed to receivers of small explicit precision (10, 19, 25, 38, random; five hand-overs, to-nearest modes with a rounding digit of 5 or more every other time), judged against a surrogate with the same top three words.",
 		Assumptions: []string{"for a precision-0 receiver of SetBitsExp the chosen precision is undocumented: only 'stored exactly and MinPrec <= Prec' is demanded", "accuracy after SetBitsExp is not part of the statement"},
 		Floors:      []floor{{"SetBitsExp/", 40000}, {"SetBitsExp/prec0", 3000}, {"BitsExp/", 10000}, {"MantExp/", 10000}, {"SetMantExp/range-end", 5000}, {"SetMantExp/int64-extreme", 2000}},
 		LevelText:   "Runtime monitoring of the raw access and MantExp/SetMantExp pairs against exact values with exponents evaluated in big.Int, over the whole int64 exponent space.",
@@ -162,7 +162,7 @@ var props = map[string]*propCfg{
 		DesignRef:   "DESIGN.md §4 C13",
 	},
 	"C11": {
-		Rule:        "Values (1..3 000 digits incl. interior and trailing zero words, exponents from MinExp to MaxExp, both signs, zeros, infinities) built through five routes (raw words with extra low zero words, parser, arithmetic, reused longer buffer, plain) are printed with Text/Append in e, E, f (|exponent| < 5 000), g, G, p at precision -1, with b, MarshalText and json.Marshal; the text must (1) carry exactly the oracle's significant digits, MinPrec of them (first through last non-zero digit of the mantissa part; not for b/JSON), (2) parse back (Parse base 10 / SetString / UnmarshalText / json.Unmarshal) into receivers of precision max(1,MinPrec), +1 and +40, any mode, dirty or fresh, to exactly x's value and sign incl. -0 and +-Inf, comparing equal to x. x unchanged. Non-trivial = finite values. Added in later rounds: Append into buffers with spare capacity, the MarshalText result overwritten by its owner before the next call, a second formatting after an in-place update of interior mantissa words.",
+		Rule:        "Values (1..3 000 digits incl. interior and trailing zero words, exponents from MinExp to MaxExp, both signs, zeros, infinities) built through five routes (raw words with extra low zero words, parser, arithmetic, reused longer buffer, plain) are printed with Text/Append in e, E, f (|exponent| < 5 000), g, G, p at precision -1, with b, MarshalText and json.Marshal; the text must (1) carry exactly the oracle's significant digits, MinPrec of them (first through last non-zero digit of the mantissa part; not for b/JSON), (2) parse back (Parse base 10 / SetString / UnmarshalText / json.Unmarshal) into receivers of precision max(1,MinPrec), +1 and +40, any mode, dirty or fresh, to exactly x's value and sign incl. -0 and +-Inf, comparing equal to x. x unchanged. Non-trivial = finite values. Added in later rounds: Append into buffers with spare capacity, the MarshalText result overwritten by its owner before the next call, a second formatting after an in-place update of interior mantissa words. Round 6: the shared exponent generator also draws +-10^j and its neighbours (where the printed exponent gains or loses a digit).",
 		Assumptions: []string{"'f' output is generated only for |exponent| < 5 000 (it materialises the exponent)"},
 		Floors:      []floor{{"format/e/finite", 8000}, {"format/f/finite", 5000}, {"format/g/finite", 8000}, {"format/p/finite", 8000}, {"format/b/finite", 8000}, {"format/JSON/finite", 8000}, {"format/MarshalText/finite", 8000}, {"round_trips", 250000}, {"route/low-zero-words", 10000}},
 		LevelText:   "Runtime round-trip monitoring (metamorphic): print, check the digits against the exact value, parse back at three precisions.",
@@ -170,7 +170,7 @@ var props = map[string]*propCfg{
 		DesignRef:   "DESIGN.md §4 C11",
 	},
 	"C17": {
-		Rule:        "Round trips (25%): values of every form x mode x accuracy (Below/Above produced by real roundings) x precisions incl. mantissas much shorter than the precision, through GobEncode/GobDecode and through encoding/gob streams into a zero value: value, sign, precision, mode and accuracy must come back; x unchanged. Into a receiver with precision q != 0 (15%): q and the receiver's mode kept, value = the transmitted value rounded once to (q, mode) by both oracle models. Hostile bytes (60%): valid encodings truncated at every length, with one bit flipped (header and body), with random byte edits, extended with trailing bytes; hand-built payloads with form 3, mode 6/7, accuracy 3, precision 0 / 2^32-1 / random, exponent anywhere, mantissa words >= 10^19, 2^64-1, zero or short leading word, partial last word; random bytes. GobDecode must never panic; whatever it returns, the receiver must pass the C08 walker; an accepted payload must survive a battery of follow-up calls (Text, Cmp, Add, Mul, Sub, Set, Neg, Int64, re-encoding and decoding to an equal value). Every case is non-trivial. Added in later rounds: both buffers (GobEncode's result, GobDecode's input) are overwritten by their owner afterwards, a mantissa word exactly equal to the base.",
+		Rule:        "Round trips (25%): values of every form x mode x accuracy (Below/Above produced by real roundings) x precisions incl. mantissas much shorter than the precision, through GobEncode/GobDecode and through encoding/gob streams into a zero value: value, sign, precision, mode and accuracy must come back; x unchanged. Into a receiver with precision q != 0 (15%): q and the receiver's mode kept, value = the transmitted value rounded once to (q, mode) by both oracle models. Hostile bytes (60%): valid encodings truncated at every length, with one bit flipped (header and body), with random byte edits, extended with trailing bytes; hand-built payloads with form 3, mode 6/7, accuracy 3, precision 0 / 2^32-1 / random, exponent anywhere, mantissa words >= 10^19, 2^64-1, zero or short leading word, partial last word; random bytes. GobDecode must never panic; whatever it returns, the receiver must pass the C08 walker; an accepted payload must survive a battery of follow-up calls (Text, Cmp, Add, Mul, Sub, Set, Neg, Int64, re-encoding and decoding to an equal value). Every case is non-trivial. Added in later rounds: both buffers (GobEncode's result, GobDecode's input) are overwritten by their owner afterwards, a mantissa word exactly equal to the base. Round 6: one well-formed payload of a little more than 2^32 digits (1.8 GB, precision field = digit count mod 2^32 plus 0..300) decoded into a zero value: whatever GobDecode answers, the receiver must not hold more digits than its precision.",
 		Assumptions: []string{"the follow-up battery is skipped (and counted) when an accepted payload carries a precision above 100 000: a legitimate attribute, but Set/Mul at that size only test the allocator"},
 		Floors:      []floor{{"roundtrip/direct", 20000}, {"roundtrip/encoding-gob", 20000}, {"roundtrip-acc/-1", 5000}, {"roundtrip-acc/1", 5000}, {"into-receiver", 25000}, {"hostile/truncated", 20000}, {"hostile/bit-flip", 20000}, {"hostile/hand-built", 30000}, {"hostile_accepted", 20000}, {"hostile_rejected", 50000}},
 		LevelText:   "Runtime monitoring of the Gob codec: attribute-exact round trips, oracle-checked rounding into receivers, and field-aware fuzzing of the decoder with the invariant walker and a follow-up battery as oracles.",
@@ -194,7 +194,7 @@ var props = map[string]*propCfg{
 		DesignRef:   "DESIGN.md §4 C10",
 	},
 	"C18": {
-		Rule:        "Workers built with -race and -tags verif, once with the assembly kernels and once with the portable ones (decimal_pure_go: the race detector sees into them). Per shard (4 shards = 4 different operand/job tables): 35 shared operands (5..6 000 digits, +-0, +-Inf, 1, integers filling their mantissa, values in the top and bottom decade of the exponent range, zeros and an infinity in variables that held finite values) and a table of 520 jobs of 27 kinds: readers of shared operands (Add, Sub, Mul, squaring, Quo incl. 100..200-word divisors, FMA, Sqrt, Cmp, Text, Format, Float64/32, Float, Int, Rat, GobEncode, MarshalText, Set; precisions to 4 000) and writers into the goroutine's own receiver from shared or constant arguments (Parse of decimal and binary literals, gob round trip, SetRat, SetInt, SetFloat64, SetFloat, fmt with zero- and space-padded wide fields, Int of values far longer than their mantissa, the accumulation a.FMA(x, y, a)). Before anything else runs in the process, the first job of every kind is executed by 8 goroutines released together (cold start). Then the table is computed sequentially twice (determinism, getters do not write; operands compared bit for bit incl. the leftover exponent of zeros and infinities). Then, per repetition (4 quick / 60 thorough), four configurations (GOMAXPROCS, goroutines) = (2,4), (4,16), (16,16), (16,64) run the jobs in per-goroutine random order, each goroutine writing only to its own receivers; in every other configuration the verif hooks poison the scratch pool and inject Gosched / 0..50 us sleeps / runtime.GC() (empties the pool) at the pool get/put sites. Oracles: (1) the race detector: any report block is a violation (deduplicated by the outermost frames of the two accesses); (2) every concurrent result must equal the sequential one; (3) operand snapshots before/after. Evidence counts operation intervals from different goroutines that overlapped on a common operand (atomic busy masks recorded at the client boundary), distinct overlapping (kind, kind) pairs, hook calls, injected yields and GC cycles, pool gets, Karatsuba and recursive-division entries. A case = one configuration run; all are non-trivial.",
+		Rule:        "Workers built with -race and -tags verif, once with the assembly kernels and once with the portable ones (decimal_pure_go: the race detector sees into them). Per shard (4 shards = 4 different operand/job tables): 35 shared operands (5..6 000 digits, +-0, +-Inf, 1, integers filling their mantissa, values in the top and bottom decade of the exponent range, zeros and an infinity in variables that held finite values) and a table of 520 jobs of 27 kinds: readers of shared operands (Add, Sub, Mul, squaring, Quo incl. 100..200-word divisors, FMA, Sqrt, Cmp, Text, Format, Float64/32, Float, Int, Rat, GobEncode, MarshalText, Set; precisions to 4 000) and writers into the goroutine's own receiver from shared or constant arguments (Parse of decimal and binary literals, gob round trip, SetRat, SetInt, SetFloat64, SetFloat, fmt with zero- and space-padded wide fields, Int of values far longer than their mantissa, the accumulation a.FMA(x, y, a)). Before anything else runs in the process, the first job of every kind is executed by 8 goroutines released together (cold start). Then the table is computed sequentially twice (determinism, getters do not write; operands compared bit for bit incl. the leftover exponent of zeros and infinities). Then, per repetition (4 quick / 60 thorough), four configurations (GOMAXPROCS, goroutines) = (2,4), (4,16), (16,16), (16,64) run the jobs in per-goroutine random order, each goroutine writing only to its own receivers; in every other configuration the verif hooks poison the scratch pool and inject Gosched / 0..50 us sleeps / runtime.GC() (empties the pool) at the pool get/put sites. Oracles: (1) the race detector: any report block is a violation (deduplicated by the outermost frames of the two accesses); (2) every concurrent result must equal the sequential one; (3) operand snapshots before/after. Evidence counts operation intervals from different goroutines that overlapped on a common operand (atomic busy masks recorded at the client boundary), distinct overlapping (kind, kind) pairs, hook calls, injected yields and GC cycles, pool gets, Karatsuba and recursive-division entries. A case = one configuration run; all are non-trivial. Round 6: a large-buffer phase (shared operands of 70 000 .. 1 000 000 digits built from words; Mul, Sqr, Quo, Text, MarshalText, Format, Gob, Cmp, Int run by 4 goroutines, pairs on the same job at the same time: scratch of a megabyte and more, digit buffers beyond 64 KiB); the library's hit counters are plain increments in race builds, so that they are not a synchronisation point at every hook site (an atomic counter hid a race next to the pool sites in two runs out of three).",
 		Assumptions: []string{"the race detector only sees the interleavings that occurred: the claim is 'no race on the K overlapping operations observed', not schedule coverage", "the monitor's own state is atomics only; hooks are installed while no goroutine runs"},
 		Floors:      []floor{{"overlapping_operations_on_a_shared_operand", 5000}, {"distinct_overlapping_operation_pairs", 100}, {"concurrent_operations", 100000}, {"hook_calls_at_pool_sites", 10000}, {"injected_gc_cycles", 50}, {"hit_karatsuba", 1000}, {"hit_div_recursive", 100}, {"config/", 64}},
 		Variants: []variant{
@@ -202,11 +202,11 @@ var props = map[string]*propCfg{
 			// the portable kernels are ordinary Go code: the race detector sees into them (it cannot see into the assembly)
 			{Name: "race-puredec", Tags: "verif,decimal_pure_go", Race: true, Env: []string{"GORACE=halt_on_error=0 exitcode=0"}},
 		},
-		Shards:      4,
-		RaceShards:  4,
-		LevelText:   "Race-detector monitoring of a read-only-sharing stress workload with injected delays, GC and pool poisoning, plus determinism and operand-snapshot oracles; evidence reports the overlaps actually observed.",
-		Technique:   "Go race detector over a stress workload with hook-injected yields/GC; determinism vs sequential reference; operand snapshots",
-		DesignRef:   "DESIGN.md §4 C18",
+		Shards:     4,
+		RaceShards: 4,
+		LevelText:  "Race-detector monitoring of a read-only-sharing stress workload with injected delays, GC and pool poisoning, plus determinism and operand-snapshot oracles; evidence reports the overlaps actually observed.",
+		Technique:  "Go race detector over a stress workload with hook-injected yields/GC; determinism vs sequential reference; operand snapshots",
+		DesignRef:  "DESIGN.md §4 C18",
 	},
 }
 
